@@ -6,13 +6,21 @@ from checks import C24, C23
 IRC = "Source/Lib/Encoder/Codec/EbInitialRateControlProcess.c"
 
 
+RCP = "Source/Lib/Encoder/Codec/EbResourceCoordinationProcess.c"
+THR = "Source/Lib/Common/Codec/EbThreads.c"
+
+
+def gen_reset(wd):
+    open(os.path.join(wd, "c04_reset.inc"), "w").write(slicer.functions(THR, ["atomic_set_u32", "svt_create_cond_var"]) + slicer.functions(RCP, ["reset_pcs_av1"]))
+
+
 def gen(wd):
     open(os.path.join(wd, "c04_irc.inc"), "w").write(slicer.functions(IRC, ["determine_picture_offset_in_queue"]))
 
 
 META = {
     "engine": "E5 symbolic scheduler / E3 self-composition",
-    "level_text": "Three schedule-independence mechanisms of the pipeline, each decided on the real code for all schedules within its bound: (1) the EncDec segment hand-off (real assign_enc_dec_segments + sliced superblock walk) under every schedule of 3 workers: every superblock is coded exactly once, after its left/upper/upper-right neighbours, whatever the schedule (queries shared with C24); (2) the resource-manager FIFO (real EbSystemResourceManager.c under a step scheduler): objects reach a single consumer in posting order under every interleaving (query shared with C23); (3) the initial-rate-control re-sequencing queue: the slot a picture gets and the queue state after two arrivals are identical for both arrival orders (2-safety query on the real determine_picture_offset_in_queue).",
+    "level_text": "Four schedule-independence mechanisms of the pipeline, each decided on the real code for all schedules within its bound: (1) the EncDec segment hand-off (real assign_enc_dec_segments + sliced superblock walk) under every schedule of 3 workers: every superblock is coded exactly once, after its left/upper/upper-right neighbours, whatever the schedule (queries shared with C24); (2) the resource-manager FIFO (real EbSystemResourceManager.c under a step scheduler): objects reach a single consumer in posting order under every interleaving (query shared with C23); (3) the per-picture hand-shake state of a recycled PictureParentControlSet is reset by the real reset_pcs_av1 from arbitrary previous contents; (4) the initial-rate-control re-sequencing queue: the slot a picture gets and the queue state after two arrivals are identical for both arrival orders (2-safety query on the real determine_picture_offset_in_queue).",
     "level_note": "Byte-identical output of a whole encode under every interleaving of ~20 thread types is NOT decided: only these three hand-off mechanisms are. The picture-decision, picture-manager and packetization reorder loops, the TPL/ME readiness handshake and shared per-picture state are outside (the packetization window queries did not finish within budget, see C02).",
     "technique": "CBMC bounded symbolic execution with symbolic worker schedules (shared harnesses of C23/C24) and a self-composition query over two arrival orders",
     "assumptions": ["mutex/semaphore model harness/common/threads_model.h", "reorder-queue representation invariant: the head slot carries the next picture number to release"],
@@ -24,6 +32,11 @@ def queries(tier):
     qs = [Query(name="irc_reorder_slot_order_independent_head%d" % h, harness="C04/irc_reorder.c", gen=gen, defines=["HEAD=%d" % h], unwind=8, timeout=600,
                 funcs=[IRC + ":determine_picture_offset_in_queue"], bound="queue depth 2048, head index %d, arbitrary next picture number < 2^62, two different pictures at distances 0..4 from it, arbitrary stale slot contents" % h,
                 what="slots and final queue contents identical for both arrival orders; no out-of-range slot") for h in (0, 2046)]
+    qs.append(Query(name="recycled_pcs_handshake_state_reset", harness="C04/pcs_reset.c", gen=gen_reset, unwind=20, timeout=600,
+                    funcs=[RCP + ":reset_pcs_av1", THR + ":svt_create_cond_var", THR + ":atomic_set_u32"], bound="arbitrary previous contents of the readiness flag, TPL counters and PA-ME flag",
+                    what="a recycled picture control set enters the pipeline with every hand-shake field in its 'nothing announced' state"))
+    c0 = C24.R(2, 1, 1, 2, 6); c0.name = "segment_handoff_" + c0.name
+    qs.append(c0)
     a = C24.R(2, 2, 2, 2, 10); a.name = "segment_handoff_" + a.name
     b = C24.R(3, 2, 2, 2, 14); b.name = "segment_handoff_" + b.name
     qs += [a, b]
